@@ -48,7 +48,9 @@ BindResult(m, p) ==
            [] p = "a_deep"           -> "r_deep"
            [] p = "a_deep64"         -> "r_deep64"
            [] OTHER                  -> "nobind"
-Registered == {"m_ok", "m_one", "m_perr", "m_exc"}
+Registered == {"m_ok", "m_one", "m_perr", "m_exc", "m_int"}
+\* m_int is a method of a class based view whose constructor raises: the failure happens while the call is being bound, before
+\* any method body runs - an internal error (-32603); only notifications address it in the corpora (nothing is answered)
 
 \* middleware kinds
 RewrittenReq(r) == [r EXCEPT !.params = "a_1"]
@@ -135,6 +137,7 @@ Resolve(i) ==
     /\ Running(i) /\ elems[i].phase = "enter" /\ elems[i].depth = Len(cfg.mws)
     /\ LET e == elems[i] IN
        Upd(i, IF e.req.method \notin Registered THEN Fail(e, LibErr("c_m32601"))
+              ELSE IF e.req.method = "m_int" THEN Fail(e, LibErr("c_m32603"))
               ELSE IF BindResult(e.req.method, e.req.params) = "nobind" THEN Fail(e, LibErr("c_m32602"))
               ELSE [e EXCEPT !.phase = "ready"])
     /\ UNCHANGED <<cfg, text, pc, cur, execLog, mwLog, ehLog, reply, out>>
@@ -244,11 +247,12 @@ SeenReq(m, k) == IF \E j \in 1..(k-1) : cfg.mws[j] = "rewriteReq" THEN Rewritten
 CoreReq(m) == SeenReq(m, Len(cfg.mws) + 1)
 RaisedBy(m) == LET r == CoreReq(m) IN
                IF r.method \notin Registered THEN LibErr("c_m32601")
+               ELSE IF r.method = "m_int" THEN LibErr("c_m32603")
                ELSE IF BindResult(r.method, r.params) = "nobind" THEN LibErr("c_m32602")
                ELSE IF r.method = "m_perr" THEN cfg.perr
                ELSE IF r.method = "m_exc" THEN LibErr("c_m32000")
                ELSE NoErr
-Executes(m) == FirstShort = 0 /\ CoreReq(m).method \in Registered
+Executes(m) == FirstShort = 0 /\ CoreReq(m).method \in Registered \ {"m_int"}
                /\ BindResult(CoreReq(m).method, CoreReq(m).params) # "nobind"
 InnerResp(m) == IF FirstShort # 0 THEN ShortOf(cfg.mws[FirstShort], SeenReq(m, FirstShort))
                 ELSE IF m.id = "notif" THEN Nothing
